@@ -23,6 +23,8 @@ class Run(object):
         self.t0 = time.time()
         warnings.simplefilter("ignore", SyntaxWarning)
         self.model = model or Model()
+        from . import match
+        match.set_model(self.model)
         self.results = []
         self.notes = []
         self.errors = []
